@@ -52,8 +52,8 @@ theorem C10_outside_frame (s : G) (w : Uid) (roots : List Uid) (ha : CloneArgs s
 
 /-- on a reachable state the copy is never rejected -/
 theorem C10_accepted (s : G) (w : Uid) (roots : List Uid) (ha : CloneArgs s w roots) :
-    (cloneSel s w roots).2.1 = none := by
-  sorry
+    (cloneSel s w roots).2.1 = none :=
+  cloneSel_accepted s w roots ha.inv ha.wbs ha.member
 
 /-- the copy mirrors the selection: ids, hierarchy and sibling order, owner = the new WBS; links between selected
     tasks are copied, links to other members of the source are dropped, links to outside tasks are shared -/
